@@ -20,7 +20,7 @@ import time
 
 VERIF = os.path.dirname(os.path.dirname(os.path.abspath(__file__)))
 SEEDED = os.path.join(VERIF, "seeded")
-EXTRA = {"C13-m2": ["C10"], "C15-m1": ["C10"]}
+EXTRA = {"C13-m2": ["C10"], "C15-m1": ["C10"], "C05-m4": ["C19"]}
 
 
 def section(readme, *names):
